@@ -218,6 +218,7 @@ type Exec struct {
 	inits      map[*ssa.Package]*initResult
 	initRunning *ssa.Package
 	rootEnv    *SpecEnv
+	regexObjs  map[int]string     // compiled regular expressions (object id -> pattern)
 	cryptoObjs map[int]*cryptoObj // modelled cipher / hash objects (object id -> immutable part)
 }
 
